@@ -28,9 +28,48 @@ def tick_stream(rng, n, start=0, style=None):
     return out
 
 def rand_cfg(rng, **extra):
-    return cfg_opts(thr=rng.choice([0.5, 0.5, 0.3, 0.8, 1.0, 0.01, 0.6666666666666666]), minreq=rng.choice([1, 2, 3, 5]),
-                    trial=rng.choice([1, 3, 7]), openw=rng.choice([4, 10, 15]), window=rng.choice([12, 20, 40]),
-                    interval=rng.choice([2, 5, 10]), listeners=rng.choice([1, 1, 2, 3]), **extra)
+    nl = rng.choice([1, 1, 2, 3])
+    o = cfg_opts(thr=rng.choice([0.5, 0.5, 0.3, 0.8, 1.0, 0.01, 0.6666666666666666, 0.7, 0.1]), minreq=rng.choice([1, 2, 3, 5]),
+                 trial=rng.choice([1, 3, 7]), openw=rng.choice([4, 10, 15]),
+                 # huge windows are legal ("never expire"): t - window and ts + window must not wrap the wrong way
+                 window=rng.choice([12, 20, 40, 12, 20, 40, (1 << 63) - 1, (1 << 63) - 26, 1 << 62]),
+                 interval=rng.choice([2, 5, 10]), listeners=nl, **extra)
+    # listeners that answer every callback with an error, with and without a logger installed: the breaker logs and goes on
+    if rng.random() < 0.35:
+        o["lerr"] = rng.randint(1, (1 << nl) - 1)
+    if rng.random() < 0.4:
+        o["logger"] = 1
+    return o
+
+THR_PALETTE = [k / 10 for k in range(1, 10)] + [0.25, 0.75, 0.58, 0.29, 0.33, 0.35, 0.15, 0.05, 0.95, 0.01, 0.99, 1 / 3, 2 / 3, 0.125, 0.0625]
+
+def trip_boundary_cases():
+    """(thr, successes, failures) with failures/total equal to the threshold in the reals or next to it: the trip rule is a
+    strict float64 comparison threshold < failures/total, where rewritings (thr*total < failures, 1 - success rate, ...) round differently"""
+    from fractions import Fraction
+    out = []
+    for thr in THR_PALETTE:
+        ft = Fraction(thr).limit_denominator(1000)
+        for total in range(2, 201):
+            x = ft * total
+            if x.denominator == 1 and 0 < x < total:
+                f = int(x)
+                out.append((thr, total - f, f))          # rate == threshold: must NOT trip
+                out.append((thr, total - f - 1, f + 1))  # one more failure: must trip
+    return out
+
+def gen_trip_boundary(tier, rng, count):
+    cases = trip_boundary_cases()
+    rng.shuffle(cases)
+    out = []
+    for i, (thr, ns, nf) in enumerate(cases[:count] if count else cases):
+        ops = ["s"] * ns + ["f"] * nf
+        rng.shuffle(ops)
+        ops += ["f", rng.choice(["c", "x"])]
+        ticks = [0, 0] + [1] * (ns + nf) + [6, 7, 8, 8, 8, 8]
+        out.append(conc.Scn("t%d" % i, "breaker", ticks, [ops], "dfs 0 1",
+                            cfg_opts(thr=thr, minreq=rng.choice([1, 2]), window=1000, interval=5, listeners=rng.choice([1, 2]), maxsteps=20000)))
+    return out
 
 def gen_c06(tier, rng):
     s = []
@@ -38,7 +77,10 @@ def gen_c06(tier, rng):
         n = rng.choice([6, 12, 20, 40])
         w = rng.choice([(1, 1, 4), (2, 1, 3), (3, 2, 2), (1, 3, 1)])
         ops = rng.choices(["c", "s", "f"], weights=w, k=n)
-        s.append(conc.Scn("a%d" % i, "breaker", tick_stream(rng, 4 * n + 8), [ops], "dfs 0 1", rand_cfg(rng)))
+        ops = [("x" if o == "c" and rng.random() < 0.3 else o) for o in ops]
+        # the Ticker interface promises nothing about sign or origin: streams also start below zero and cross it
+        s.append(conc.Scn("a%d" % i, "breaker", tick_stream(rng, 4 * n + 8, start=rng.choice([0, 0, 0, -3, -10, -17, -25, -40])), [ops], "dfs 0 1", rand_cfg(rng)))
+    s += gen_trip_boundary(tier, rng, scale(tier, 160, 0))
     return s
 
 # deterministic set-up: thr .5, minreq 2, interval 5, window 20, openw 10, trial 3;
@@ -51,13 +93,16 @@ def gen_c03(tier, rng):
     for i in range(n1):          # open, window not elapsed: everybody is rejected
         nt = rng.choice([2, 3, 4])
         ths = [TRIP[0] + ["/"] + ["c"] * rng.choice([1, 2])] + [["/"] + ["c"] * rng.choice([1, 2]) for _ in range(nt - 1)]
-        ticks = TRIP[1] + [rng.choice([8, 12, 16])] * 40
+        # before the deadline (17): later than the trip, or the clock stepped back below the tick the open state was created at
+        off = rng.choice([0, 0, -17, -7, -100])
+        ticks = [t + off for t in TRIP[1] + [rng.choice([8, 12, 16, 6, 3, 0, -5])] * 40]
         s.append(conc.Scn("a%d" % i, "breaker", ticks, ths, "dfs 2 %d" % scale(tier, 3000, 40000),
                           cfg_opts(listeners=rng.choice([1, 2]), expect_admitted=0, expect_mode="atmost", expect_state="open")))
     for i in range(n1):          # open, window elapsed, ticker standing still: exactly one trial
         nt = rng.choice([2, 3, 4])
         ths = [TRIP[0] + ["/"] + ["c"] * rng.choice([1, 2])] + [["/"] + ["c"] * rng.choice([1, 2]) for _ in range(nt - 1)]
-        ticks = TRIP[1] + [rng.choice([17, 18, 40])] * 40
+        off = rng.choice([0, 0, -17, -17, -7, -100])      # -17: the open deadline is exactly tick 0
+        ticks = [t + off for t in TRIP[1] + [rng.choice([17, 18, 40])] * 40]
         s.append(conc.Scn("b%d" % i, "breaker", ticks, ths, "dfs 2 %d" % scale(tier, 3000, 40000),
                           cfg_opts(listeners=rng.choice([1, 2]), expect_admitted=1, expect_mode="exact", expect_state="open")))
     for i in range(n1):          # half-open: concurrent reports cause exactly one transition
